@@ -145,6 +145,9 @@ def build_program(cases):
     return '\n'.join(out) + '\n'
 
 
+USE_STL = [False]   # the `shared` family assembles half of its programs next to the standard library (its parse is cached by the process)
+
+
 def observe(cases, workdir):
     """assemble the program; -> list of observed ints (or an exception summary string per program)."""
     from fjv.asm import assemble_text
@@ -152,7 +155,7 @@ def observe(cases, workdir):
     text = build_program(cases)
     out = workdir / 'c12.fjm'
     try:
-        assemble_text(text, out, workdir, w=W, version=1, use_stl=False, werror=False)
+        assemble_text(text, out, workdir, w=W, version=1, use_stl=USE_STL[0], werror=False)
     except Exception as e:  # noqa
         return None, f'{type(e).__name__}: {str(e)[:300]}', text
     mem = Reader(out).memory
@@ -471,6 +474,8 @@ def work(task):
                                'summary': f'literal {c.tree} should be {v}, got {g}'})
         return stats, sieve.result(), {'literal': mine[0][0].tree[1] if mine else None}, len(mine), {}
     gen = FAMILIES[fam](tier)
+    # many programs of ONE process that define the same constant names, next to the (cached) standard library: a constant is the program's own
+    USE_STL[0] = fam == 'shared' and part % 2 == 1
     batch = []
     discr = {}
     for i, c in enumerate(gen):
